@@ -59,6 +59,13 @@ Theorem arguments_compose : forall a b : str,
   quoted_str_split (a ++ c_space :: b) = quoted_str_split a ++ quoted_str_split b.
 Proof. exact split_compose. Qed.
 
+(** ... in particular after every argument vector kvarnctl encodes (the empty one included): ANY
+    text after the next space -- more encoded arguments, or anything typed by hand, balanced or
+    not -- is split on its own and cannot reach back into the arguments already sent. *)
+Theorem encoded_prefix_is_sealed : forall (l : list str) (b : str),
+  quoted_str_split (join_sp (map encode_quoted_str l) ++ c_space :: b) = l ++ quoted_str_split b.
+Proof. exact split_encoded_prefix. Qed.
+
 (** UTF-8: what the server decodes is what the client's string was. *)
 Theorem utf8_decode_encode : forall s : str, all_scalar s = true -> utf8_decode (utf8_encode s) = Some s.
 Proof. exact utf8_roundtrip. Qed.
